@@ -228,7 +228,7 @@ func rows(em *netrows.Emitter, kind string, thorough bool) (cases int) {
 		if !ok {
 			fail("ask-blocked-past-deadline", fmt.Sprintf("the context ended after 500ms while the handler was busy; Ask had not returned %v later", slack), w)
 		} else if r.err == nil {
-			fail("ask-success-after-context-ended", fmt.Sprintf("the context ended after 500ms while the handler was busy; Ask returned n=%d and no error after %v", r.n, r.took.Round(time.Millisecond)), w)
+			fail("ask-success-after-context-ended", fmt.Sprintf("the context ended after 500ms while the handler was busy; Ask returned n=%d and no error", r.n), w)
 		}
 		srv.cancel()
 		closeAll(st)
@@ -295,9 +295,11 @@ func main() {
 	em := netrows.NewEmitter()
 	total := 0
 	for _, k := range netstacks.Kinds {
+		em.Watch(k, "the rows of this stack", 3*time.Minute)
 		n := rows(em, k, tier == "thorough")
 		total += n
 		em.Sample(map[string]any{"stack": k, "cases": n})
 	}
+	em.Watch("", "", 0)
 	em.Stats(map[string]int{"evaluations": total, "stacks": len(netstacks.Kinds)})
 }
